@@ -30,8 +30,12 @@ SENTINEL = "SENTINEL"
 
 RT = r'''
 """runtime helper of the generated C07 modules (not a task module)"""
+import hashlib
 import json
+import pickle
+import threading
 from pathlib import Path
+import attrs
 from pytask import PickleNode, PythonNode, DataCatalog
 ROOT = Path(__file__).resolve().parent
 CAT = DataCatalog(name="c07cat")
@@ -48,7 +52,44 @@ def cat(entry, dep):
 def _key(k):
     return ("i%d" % k) if isinstance(k, int) else "s" + k
 
+_IDV = {}
+
+def idv(name):
+    """identity-sensitive / uncopyable declared values: ONE object per name in this process"""
+    if name not in _IDV:
+        kind = name.rsplit("_", 1)[1]
+        _IDV[name] = {"lock": threading.Lock, "obj": object, "gen": lambda: (i for i in range(3))}[kind]()
+    return _IDV[name]
+
+@attrs.define(kw_only=True)
+class CustomNode:
+    """a user-defined PPathNode: pickles like PickleNode, own class, own file suffix"""
+    path: Path
+    name: str = ""
+    attributes: dict = attrs.field(factory=dict)
+
+    @property
+    def signature(self):
+        return hashlib.sha256(("c07custom" + str(self.path)).encode()).hexdigest()
+
+    def state(self):
+        return str(self.path.stat().st_mtime) if self.path.exists() else None
+
+    def load(self, is_product=False):
+        if is_product:
+            return self
+        return pickle.loads(self.path.read_bytes())
+
+    def save(self, value):
+        self.path.write_bytes(pickle.dumps(value))
+
+def _rel(path):
+    return "__".join(path.relative_to(ROOT).with_suffix("").parts)
+
 def _leaf(o):
+    for n, x in _IDV.items():
+        if x is o:
+            return "vI" + n
     if o is None:
         return "vNone"
     if isinstance(o, bool):
@@ -60,11 +101,14 @@ def _leaf(o):
             return "u" + o[3:]
         return "vE" if o == "" else "vt" + o
     if isinstance(o, Path):
-        return ("p" if (o.is_absolute() and o.parent == ROOT) else "r") + o.stem
+        if o.is_absolute() and ROOT in o.parents:
+            return "p" + _rel(o)
+        return "r" + "__".join(o.with_suffix("").parts)
     if isinstance(o, PythonNode):
         return "N" + ("H" if o.hash else "Y") + _leaf(o.value)[1:]
-    if isinstance(o, PickleNode):
-        return "NK" + (o.path.stem if o.path.parent == ROOT else "cat_" + o.name)
+    if isinstance(o, (PickleNode, CustomNode)):
+        in_catalog = ".pytask" in o.path.parts
+        return "NK" + ("cat_" + o.name if in_catalog else _rel(o.path))
     return "?" + type(o).__name__
 
 def canon(o):
@@ -85,7 +129,7 @@ def _produce(o):
             _produce(c)
     elif isinstance(o, Path):
         o.write_text("made")
-    elif isinstance(o, PickleNode):
+    elif isinstance(o, (PickleNode, CustomNode)):
         o.save("made")
 
 def sort_path_lists(o):
@@ -113,8 +157,21 @@ def body(name, kwargs, products, sort_paths=False):
 # rendering
 # ---------------------------------------------------------------------------------------------
 
+def rel_file(tok: str) -> str:
+    """file of a path-like leaf, relative to the project root: `__` in the name separates directories; the name's suffix tells the node
+    kind it is written as: p…_PN an explicit PathNode, k…_CN a user-defined PPathNode class (file suffix .cst)"""
+    name = tok[1:].replace("__", "/")
+    if tok[0] == "p":
+        return name + ".txt"
+    return name + (".cst" if tok.endswith("_CN") else ".pkl")
+
+
 def leaf_expr(tok: str, dep: bool) -> str:
     k, rest = tok[0], tok[1:]
+    if k == "v" and rest.startswith("I"):
+        return f'idv("{rest[1:]}")'
+    if k == "n" and rest.startswith("I"):
+        return f'PythonNode(value=idv("{rest[1:]}"))'
     if k == "v":
         if rest in ("None", "False", "True"):
             return rest
@@ -124,7 +181,9 @@ def leaf_expr(tok: str, dep: bool) -> str:
             return repr(rest[1:])
         return str(int(rest))
     if k == "p":
-        return f'Path("{rest}.txt")'
+        if tok.endswith("_PN"):
+            return f'PathNode(path=ROOT / "{rel_file(tok)}")'
+        return f'Path("{rel_file(tok)}")'
     if k == "n":
         return f"PythonNode(value={int(rest)})"
     if k == "h":
@@ -132,7 +191,9 @@ def leaf_expr(tok: str, dep: bool) -> str:
     if k == "k":
         if rest.startswith("cat_"):
             return f'cat("{rest[4:]}", {dep})'
-        return f'PickleNode(path=ROOT / "{rest}.pkl")'
+        if tok.endswith("_CN"):
+            return f'CustomNode(path=ROOT / "{rel_file(tok)}")'
+        return f'PickleNode(path=ROOT / "{rel_file(tok)}")'
     raise ValueError(tok)
 
 
@@ -237,7 +298,7 @@ def render_task(spec, defs=None) -> str:
 
 def render_module(specs) -> str:
     head = ("from pathlib import Path\nfrom typing import Annotated, Any\nimport pytask\nfrom pytask import task, Product, PythonNode, PickleNode\n"
-            "from c07rt import ROOT, cat, body\n\n")
+            "from pytask import PathNode\nfrom c07rt import ROOT, cat, body, idv, CustomNode\n\n")
     defs = {}
     tasks = [render_task(s, defs) for s in specs]
     shared = "".join(f"{var} = {expr}\n" for var, expr in defs.items())
@@ -280,17 +341,21 @@ def write_project(root: Path, specs):
             for tok in decl_leaves(t):
                 if tok in produced:
                     continue
+                if tok[0] in "pk" and not tok[1:].startswith("cat_"):
+                    (root / rel_file(tok)).parent.mkdir(parents=True, exist_ok=True)      # inputs exist; product directories do NOT
                 if tok[0] == "p":
-                    (root / f"{tok[1:]}.txt").write_text("input " + tok[1:])
+                    (root / rel_file(tok)).write_text("input " + tok[1:])
                 elif tok[0] == "k" and not tok[1:].startswith("cat_"):
-                    (root / f"{tok[1:]}.pkl").write_bytes(pickle.dumps("pk:" + tok[1:]))
+                    (root / rel_file(tok)).write_bytes(pickle.dumps("pk:" + tok[1:]))
         rt = ret_tree(spec)
         if rt is not None and spec.get("sentinel"):
             for tok in decl_leaves(rt):
+                if tok[0] in "pk" and not tok[1:].startswith("cat_"):
+                    (root / rel_file(tok)).parent.mkdir(parents=True, exist_ok=True)
                 if tok[0] == "p":
-                    (root / f"{tok[1:]}.txt").write_text(SENTINEL)
+                    (root / rel_file(tok)).write_text(SENTINEL)
                 elif tok[0] == "k" and not tok[1:].startswith("cat_"):
-                    (root / f"{tok[1:]}.pkl").write_bytes(pickle.dumps(SENTINEL))
+                    (root / rel_file(tok)).write_bytes(pickle.dumps(SENTINEL))
 
 
 def ret_tree(spec):
@@ -344,13 +409,13 @@ def observe(root: Path, specs, res) -> dict:
         if rt is not None:
             for tok in dict.fromkeys(decl_leaves(rt)):
                 if tok[0] == "p":
-                    f = root / f"{tok[1:]}.txt"
+                    f = root / rel_file(tok)
                     if f.exists():
                         txt = f.read_text()
                         if txt != SENTINEL:
                             o["saved"][node_tok(tok)] = "*s" + txt
                 elif tok[0] == "k":
-                    f = Path(catmap[tok[5:]]) if tok[1:].startswith("cat_") and tok[5:] in catmap else root / f"{tok[1:]}.pkl"
+                    f = Path(catmap[tok[5:]]) if tok[1:].startswith("cat_") and tok[5:] in catmap else root / rel_file(tok)
                     if f.exists():
                         val = pickle.loads(f.read_bytes())
                         if val != SENTINEL:
@@ -578,16 +643,24 @@ def gen_decl_tree(rng, names, kinds, depth=2, width=3, leaf_p=0.35, top=True, no
                 return t
     if depth == 0 or rng.random() < leaf_p:
         k = rng.choice(kinds)
+        def where(n):
+            """sometimes below (nested) directories that do not exist in a fresh project"""
+            r = rng.random()
+            return n if r < 0.6 else f"bld_{names.prefix.strip('_')}__{n}" if r < 0.8 else f"bld_{names.prefix.strip('_')}__sub{rng.randint(1, 2)}__{n}"
         if k == "v":
+            if rng.random() < 0.12:      # identity-sensitive / uncopyable value: must arrive as THE declared object
+                return ["leaf", "vI" + names.new("i") + "_" + rng.choice(["lock", "obj", "gen"])]
             return ["leaf", rng.choice(["v1", "v2", "v3", "v17", "vNone", "v0", "vE", "vtab", "vtxyz", "vFalse", "v-4"])]
         if k == "p":
-            return ["leaf", "p" + names.new("f")]
+            return ["leaf", "p" + where(names.new("f")) + ("_PN" if rng.random() < 0.25 else "")]
         if k == "n":
+            if rng.random() < 0.15:
+                return ["leaf", "nI" + names.new("i") + "_" + rng.choice(["lock", "obj"])]
             return ["leaf", f"n{rng.randint(1, 99)}"]
         if k == "h":
             return ["leaf", f"h{rng.randint(1, 99)}"]
         if k == "k":
-            return ["leaf", "k" + names.new("q")]
+            return ["leaf", "k" + where(names.new("q")) + ("_CN" if rng.random() < 0.35 else "")]
         if k == "c":
             return ["leaf", "kcat_" + names.new("e")]
     kind = rng.choice(["list", "tuple", "dictS", "dictI"])
@@ -955,7 +1028,7 @@ def gen_sequence(rng, base):
     for rnd in range(rng.randint(1, 2)):
         for name in rng.sample(pickles, rng.randint(1, len(pickles))):
             cur[name] = f"{name}x{rnd + 2}"
-            steps.append(["pickle", f"{name}.pkl", "pk:" + cur[name]])
+            steps.append(["pickle", rel_file("k" + name), "pk:" + cur[name]])
         if rng.random() < 0.7:
             cur[dst] = f"{dst}v{rnd + 2}"
             steps.append(["text", f"{base}_src.txt", cur[dst]])
